@@ -29,6 +29,10 @@ def truncated_files(chk, tier):
                 if 0 <= k * W + d <= n:
                     cuts.add(k * W + d)
         # around every block boundary: offsets come from the TLA+ parse; here every offset near a 0xA? map start is tried too
+        for b in getattr(make_files, "bounds", {}).get(f.name, []):       # every block boundary, +-2
+            for d in range(-2, 3):
+                if 0 <= b + d <= n:
+                    cuts.add(b + d)
         for _ in range(12 if tier == "quick" else 500):
             cuts.add(rng.randrange(0, n + 1))
         if n < 4000:
